@@ -82,6 +82,24 @@ CHECKS = {
               "cases N <= 27, <= 72 atoms; tolerance 1e-9 relative. Out of scope: imaginary modes, max_distance clipping, "
               "yaml/CIF writers."),
         design="5/C19 and 11.2"),
+    "C14": dict(
+        text=("AccessPaths.tla names every reported array by a token (kind, q, NAC term, rounding, group-velocity "
+              "perturbation, band order) and states C14 as invariants over functions of (state, q, requested direction) "
+              "only, so no flag and no build enters the requirement. A step machine with heap cells, view aliasing and "
+              "unbound locals transcribes QpointsPhonon._run, Mesh._set_phonon, IterMesh.__next__, "
+              "BandStructure._solve_dm_on_path, init_mesh and the direct getters. TLC proves Impl => Spec for the machine "
+              "over all 2520 configurations (paths x output flags x band connection x NAC none/Wang/Gonze-Lee x decimals x "
+              "direction x q-list shapes x OpenMP/serial). Every configuration is then run on the real API in both builds "
+              "and each returned array is classified against the exact spring-model Fourier sum (yaml/hdf5 files re-read "
+              "as part of it); TLC evaluates the requirement on the logged observations (AccessPathsTrace) and reports which "
+              "code variant of the machine reproduces them. BandConnection.tla decides that greedy band matching yields a "
+              "permutation over exactly unitary integer overlap matrices; its table is replayed on the real function."),
+        note=("Trusted: with NAC the matrix a token names is DynamicalMatrixNAC.run on a separate reference object (C08 owns "
+              "it); group-velocity tokens come from a fresh GroupVelocity (C12 owns it); numpy eigh; without NAC the Fourier "
+              "sum is TLC-computed. Bounds: primitive = unit cell, 4 crystals (one with all modes unstable), 2x2x2 "
+              "supercells, q-lists <= 3 points, meshes <= 12 irreducible points; band connection 3x3 entries -2..2, 4x4 "
+              "-1..1; files compared to half a unit of the last printed digit."),
+        design="5/C14 and 11.2"),
 }
 
 NOT_BUILT = "check under construction in this round; not yet claimed"
